@@ -102,12 +102,14 @@ func (c *RollingCounter) WindowSize() time.Duration {
 
 // Inc increments counter.
 func (c *RollingCounter) Inc(v int) {
-	c.cleanup()
-	c.incBucketValue(v)
+	// One reading of the clock for both steps: were the slot to change in between, the value
+	// would land in a bucket that was not cleaned and would then be taken for a fresh one.
+	now := clock.Now().UTC()
+	c.cleanupAt(now)
+	c.incBucketValue(now, v)
 }
 
-func (c *RollingCounter) incBucketValue(v int) {
-	now := clock.Now().UTC()
+func (c *RollingCounter) incBucketValue(now time.Time, v int) {
 	bucket := c.getBucket(now)
 	c.values[bucket] += v
 	c.lastUpdated = now
@@ -134,7 +136,10 @@ func (c *RollingCounter) getBucket(t time.Time) int {
 
 // Reset buckets that were not updated.
 func (c *RollingCounter) cleanup() {
-	now := clock.Now().UTC()
+	c.cleanupAt(clock.Now().UTC())
+}
+
+func (c *RollingCounter) cleanupAt(now time.Time) {
 	for i := 0; i < len(c.values); i++ {
 		checkPoint := now.Add(time.Duration(-1*i) * c.resolution)
 		if checkPoint.Truncate(c.resolution).After(c.lastUpdated.Truncate(c.resolution)) {
